@@ -25,10 +25,10 @@ Qed.
 
 (* ---------- the rule ---------- *)
 
-Lemma admit_spec : forall lock v i rho s,
-  admit lock v i rho s = true <-> exists sh, lookup v lock = Some sh /\ In i sh /\ s = GSig v i rho.
+Lemma lets_in_spec : forall lock v i rho s,
+  lets_in lock v i rho s = true <-> exists sh, lookup v lock = Some sh /\ In i sh /\ s = GSig v i rho.
 Proof.
-  intros. unfold admit. destruct (lookup v lock) as [sh|]; split.
+  intros. unfold lets_in. destruct (lookup v lock) as [sh|]; split.
   - intro H. apply andb_true_iff in H as [H1 H2]. exists sh. repeat split; [apply memz_In; assumption|apply gsig_eqb_eq; assumption].
   - intros [sh' [E [Hin Hs]]]. inversion E; subst sh'. apply andb_true_iff. split; [apply memz_In; assumption|apply gsig_eqb_eq; assumption].
   - discriminate.
@@ -37,10 +37,10 @@ Qed.
 
 (* the verifier run by the code lets a signature through exactly when the rule says so
    (and the object is eth2 signed data) *)
-Lemma verify_share_admit : forall lock v i raw rho s,
-  verify_share lock v i raw rho s = None <-> raw = false /\ admit lock v i rho s = true.
+Lemma verify_share_rule : forall lock v i raw rho s,
+  verify_share lock v i raw rho s = None <-> raw = false /\ lets_in lock v i rho s = true.
 Proof.
-  intros. unfold verify_share, admit. destruct (lookup v lock) as [sh|]; [|split; [discriminate|intros [_ H]; discriminate]].
+  intros. unfold verify_share, lets_in. destruct (lookup v lock) as [sh|]; [|split; [discriminate|intros [_ H]; discriminate]].
   destruct (memz i sh); simpl; [|split; [discriminate|intros [_ H]; discriminate]].
   destruct raw; [split; [discriminate|intros [H _]; discriminate]|].
   destruct s; simpl.
@@ -54,7 +54,7 @@ Proof.
   intros. unfold item_outcome, item_ok. destruct (i_who it) as [v|]; [|split; discriminate].
   destruct (i_prop it); simpl; [|split; discriminate].
   destruct (i_inner it); simpl; [|split; discriminate].
-  rewrite verify_share_admit. destruct (i_raw it); simpl; split.
+  rewrite verify_share_rule. destruct (i_raw it); simpl; split.
   - intros [H _]; discriminate.
   - discriminate.
   - intros [_ H]; assumption.
@@ -68,37 +68,37 @@ Variable sroot : content -> N.
 Hypothesis sroot_inj : forall c c', sroot c = sroot c' -> c = c'.
 
 Theorem alteration_rejected : forall lock v i c s,
-  admit lock v i (sroot c) s = true ->
-  (forall c', c' <> c -> admit lock v i (sroot c') s = false)            (* any change of the signed content *)
-  /\ (forall rho, rho <> sroot c -> admit lock v i rho s = false)        (* other domain / fork / epoch: other signing root *)
-  /\ (forall j, j <> i -> admit lock v j (sroot c) s = false)            (* presented under another share index *)
-  /\ (forall v', v' <> v -> admit lock v' i (sroot c) s = false)         (* presented for another validator *)
-  /\ (forall s', s' <> s -> admit lock v i (sroot c) s' = false)         (* any other signature: other share's, zero, garbage *)
-  /\ admit lock v i (sroot c) GZero = false.
+  lets_in lock v i (sroot c) s = true ->
+  (forall c', c' <> c -> lets_in lock v i (sroot c') s = false)            (* any change of the signed content *)
+  /\ (forall rho, rho <> sroot c -> lets_in lock v i rho s = false)        (* other domain / fork / epoch: other signing root *)
+  /\ (forall j, j <> i -> lets_in lock v j (sroot c) s = false)            (* presented under another share index *)
+  /\ (forall v', v' <> v -> lets_in lock v' i (sroot c) s = false)         (* presented for another validator *)
+  /\ (forall s', s' <> s -> lets_in lock v i (sroot c) s' = false)         (* any other signature: other share's, zero, garbage *)
+  /\ lets_in lock v i (sroot c) GZero = false.
 Proof.
-  intros lock v i c s H. apply admit_spec in H as [sh [El [Hin Hs]]]. subst s.
-  assert (G : forall v' j rho, (v', j, rho) <> (v, i, sroot c) -> admit lock v' j rho (GSig v i (sroot c)) = false).
-  { intros v' j rho Hne. destruct (admit lock v' j rho (GSig v i (sroot c))) eqn:E; [|reflexivity].
-    apply admit_spec in E as [sh' [_ [_ Hs]]]. inversion Hs; subst. exfalso; apply Hne; reflexivity. }
+  intros lock v i c s H. apply lets_in_spec in H as [sh [El [Hin Hs]]]. subst s.
+  assert (G : forall v' j rho, (v', j, rho) <> (v, i, sroot c) -> lets_in lock v' j rho (GSig v i (sroot c)) = false).
+  { intros v' j rho Hne. destruct (lets_in lock v' j rho (GSig v i (sroot c))) eqn:E; [|reflexivity].
+    apply lets_in_spec in E as [sh' [_ [_ Hs]]]. inversion Hs; subst. exfalso; apply Hne; reflexivity. }
   repeat split.
   - intros c' Hc. apply G. intro E. inversion E. apply Hc. apply sroot_inj. assumption.
   - intros rho Hr. apply G. intro E. inversion E. contradiction.
   - intros j Hj. apply G. intro E. inversion E. contradiction.
   - intros v' Hv. apply G. intro E. inversion E. contradiction.
-  - intros s' Hs'. destruct (admit lock v i (sroot c) s') eqn:E; [|reflexivity].
-    apply admit_spec in E as [_ [_ [_ Hs]]]. subst s'. contradiction.
-  - destruct (admit lock v i (sroot c) GZero) eqn:E; [|reflexivity]. apply admit_spec in E as [_ [_ [_ Hs]]]. discriminate.
+  - intros s' Hs'. destruct (lets_in lock v i (sroot c) s') eqn:E; [|reflexivity].
+    apply lets_in_spec in E as [_ [_ [_ Hs]]]. subst s'. contradiction.
+  - destruct (lets_in lock v i (sroot c) GZero) eqn:E; [|reflexivity]. apply lets_in_spec in E as [_ [_ [_ Hs]]]. discriminate.
 Qed.
 End Alter.
 
 Theorem unknown_or_out_of_range_rejected : forall lock v i rho s,
-  (lookup v lock = None -> admit lock v i rho s = false) /\
-  (forall sh, lookup v lock = Some sh -> ~ In i sh -> admit lock v i rho s = false).
+  (lookup v lock = None -> lets_in lock v i rho s = false) /\
+  (forall sh, lookup v lock = Some sh -> ~ In i sh -> lets_in lock v i rho s = false).
 Proof.
   intros. split.
-  - intro H. unfold admit. rewrite H. reflexivity.
-  - intros sh H Hn. destruct (admit lock v i rho s) eqn:E; [|reflexivity].
-    apply admit_spec in E as [sh' [E' [Hin _]]]. rewrite H in E'. inversion E'; subst. contradiction.
+  - intro H. unfold lets_in. rewrite H. reflexivity.
+  - intros sh H Hn. destruct (lets_in lock v i rho s) eqn:E; [|reflexivity].
+    apply lets_in_spec in E as [sh' [E' [Hin _]]]. rewrite H in E'. inversion E'; subst. contradiction.
 Qed.
 
 (* ---------- accepted labels satisfy the monitor ---------- *)
@@ -182,8 +182,8 @@ Qed.
 
 (* ---------- Prop-level readings ---------- *)
 
-(* admitted_valid: nothing reaches a subscriber unless the rule admits it *)
-Theorem admitted_valid : forall l, accepts l = true ->
+(* accepted_valid: nothing reaches a subscriber unless the rule lets it in *)
+Theorem accepted_valid : forall l, accepts l = true ->
   forall call d, In call (l_calls l) -> In d call ->
   d_valid d = true /\
   (match l_ent l with VApi self => d_idx d = self | Peer g _ => gate_ok g = true end) /\
@@ -201,8 +201,8 @@ Proof.
     unfold item_matches in Hmt. unfold item_ok in Hok. destruct (i_who it) as [v|] eqn:Ew; [|discriminate].
     apply andb_true_iff in Hmt as [Hmt Hr]. apply andb_true_iff in Hmt as [Hv' Hi].
     apply N.eqb_eq in Hv', Hr. apply Z.eqb_eq in Hi. subst v.
-    apply andb_true_iff in Hok as [Hok Hadm]. apply andb_true_iff in Hok as [Hok Hraw]. apply andb_true_iff in Hok as [Hp Hin].
-    apply negb_true_iff in Hraw. rewrite Hi, Hr in Hadm. apply admit_spec in Hadm as [sh [El [Hsh Hs]]].
+    apply andb_true_iff in Hok as [Hok Hlet]. apply andb_true_iff in Hok as [Hok Hraw]. apply andb_true_iff in Hok as [Hp Hin].
+    apply negb_true_iff in Hraw. rewrite Hi, Hr in Hlet. apply lets_in_spec in Hlet as [sh [El [Hsh Hs]]].
     exists it, sh. repeat split; auto.
 Qed.
 
